@@ -271,8 +271,12 @@ func genMask(mode string, n int, rnd *rand.Rand, emit func(p string)) {
 		rec("", 0)
 	case "rnd":
 		all := append(append([]string{}, maskToks...), maskToksMore...)
-		heads := []string{"", "", "", "|", "||", "||", "|http://", "||ws", "http", "https://", "wss:/", "|https://", "://"}
-		tails := []string{"", "", "", "|", "^", "/*", "*", "^|", "^*", "/"}
+		// (more pipes than anchors at either end: the surplus ones are literal characters)
+		heads := []string{"", "", "", "|", "||", "||", "|http://", "||ws", "http", "https://", "wss:/", "|https://", "://", "|||", "||||"}
+		tails := []string{"", "", "", "|", "^", "/*", "*", "^|", "^*", "/", "||", "|||", "\\|"}
+		for _, p := range []string{"ads.js||", "|||example.org/ads", "||ads.js||", "ads||js", "ad|ban|ner.js", "||||x.js", "ads.js|||", "ab\\|", "||ab.c/d\\|"} {
+			emit(p)
+		}
 		for i := 0; i < n; i++ {
 			p := heads[rnd.Intn(len(heads))]
 			m := rnd.Intn(9)
@@ -287,7 +291,7 @@ func genMask(mode string, n int, rnd *rand.Rand, emit func(p string)) {
 
 // regex grammar for C05
 func genRegex(rnd *rand.Rand, depth int) string {
-	lits := []string{"a", "b", "c", "ad", "foo", "bar", "track", "ban", "x", "Z", "1", "-", "_", "\\.", "\\/", "\\-", "=", "&"}
+	lits := []string{"a", "b", "c", "ad", "foo", "bar", "track", "ban", "x", "Z", "1", "-", "_", "\\.", "\\/", "\\-", "=", "&", "banners*", "ads{0,1}", "small", "s"}
 	atom := func() string {
 		switch rnd.Intn(12) {
 		case 0:
@@ -446,6 +450,14 @@ func generateProgCases(m map[string]string) (cases []progCase, objs map[int]*rul
 				add("/"+s+"/", "", "")
 			}
 		})
+	}
+	if argInt(m, "regexrnd", 0) > 0 {
+		// a literal that ends in an optional character, a gap, and a literal that starts with that character: the
+		// required literals on the two sides of the gap must not be read as one
+		for _, s := range []string{"banners*\\d+small", "ads{0,1}\\d+script", "foo*.+oops", "tracks*[0-9]+s\\.js", "xa*[a-z]+ab", "\\/pixels*\\w+\\.gif",
+			"ban+ers*\\D+s1"} {
+			add("/"+s+"/", "", "")
+		}
 	}
 	if n := argInt(m, "regexrnd", 0); n > 0 {
 		for i := 0; i < n; i++ {
